@@ -36,8 +36,8 @@ ASSUMPTIONS = [
     'domain restriction stated by the code: no longitude cell wider than half the circle; nlon >= 3 is enumerated (nlon = 2 is the '
     'degenerate boundary where the nearest periodic image of a neighbour is a tie); grids outside the enumerated lattice are not covered',
     'NaN semantics are decided on the enumerated patterns only (single cells, pairs on grids with <= 18 cells, full rows, '
-    'all cells); the quick tier runs __call__ on a covering sub-lattice of pairs (every longitude factor and every latitude '
-    'factor at least twice) and the weight factors on all pairs; the thorough tier runs __call__ on all pairs',
+    'all cells); the quick tier runs __call__ on a covering sub-lattice of pairs (every latitude factor and, for each size pair, '
+    'every offset pair of the design lattice at least once) and the weight factors on all pairs; the thorough tier runs __call__ on all pairs',
     'vertical: hybrid coefficients are taken from the library objects as configuration; surface pressures on the 4-point lattice',
 ]
 RULE = ('case = (source grid, target grid, what) with what in {factors, basis through __call__ per skipna, constant/'
@@ -51,7 +51,8 @@ OFFSETS_THOROUGH = [0.0, 0.1, float(np.pi / 5), 1.0, 3.0, 6.0]
 OFFSETS_QUICK = [0.0, 0.1, 3.0]
 # pairs that involve a three-cell longitude grid (cells 2*pi/3 wide, the widest the code admits) get extra offsets
 OFFSETS_NLON3_EXTRA = {'quick': [0.5, 1.0], 'thorough': [0.5]}
-QUICK_LATIN_SHIFTS = (0, 4)       # quick: offset pair k runs through __call__ with spacing pairs k+shift (mod 9)
+QUICK_LATIN_SHIFTS = (0,)         # quick: spacing pair k=(3*i+j) runs offset pair (k+shift) mod n through __call__
+PAIRS_PER_UNIT = 25               # grid pairs per work unit
 PAIR_PATTERN_MAX_CELLS = 18       # "smaller grids": all pairs of NaN cells when the source has <= 18 cells
 SURFACE_PRESSURES = [500.0, 850.0, 1013.25, 1080.0]
 HYBRIDS = ['ECMWF137', 'UFS127', 'sigma5', 'mixed5', 'top60']
@@ -74,7 +75,9 @@ def bounds(tier):
   npairs = sum(len(_offsets(tier, a, b)) ** 2 * len(SPACINGS) ** 2 for a in SIZES for b in SIZES)
   return dict(sizes_nlon_nlat=SIZES, spacings=SPACINGS, longitude_offsets=offs,
               extra_offsets_for_pairs_with_nlon_3=OFFSETS_NLON3_EXTRA[tier], grid_pairs=npairs,
-              pairs_through_call=('covering sub-lattice: %d per (size, size)' % (9 * len(QUICK_LATIN_SHIFTS)))
+              pairs_through_call=('covering sub-lattice, %d per (size, size): spacing pair k runs with offset pair k, so '
+                                  'every spacing pair and the first 9 offset pairs occur; the weight factors are checked '
+                                  'on all pairs' % (9 * len(QUICK_LATIN_SHIFTS)))
               if tier == 'quick' else 'all',
               nan_patterns='all single cells; all pairs of cells (source <= %d cells); full longitude rows; full latitude '
                            'circles; all cells' % PAIR_PATTERN_MAX_CELLS,
@@ -85,7 +88,8 @@ def bounds(tier):
 
 def units(tier, seed):
   pal = core.palette(seed, tier)
-  amps = sorted({p[0] for p in pal}) if tier == 'thorough' else [pal[0][0]]
+  amps_all = sorted({p[-1] for p in pal}, key=lambda v: (abs(v) != 1.0, v))      # quick: one amplitude; thorough: 1, -0.5, 2
+  amps_h = amps_all[:2]
   us = []
   for a in SIZES:
     for b in SIZES:
@@ -95,15 +99,18 @@ def units(tier, seed):
         for j, sb in enumerate(SPACINGS):
           if tier == 'quick':
             k = i * 3 + j
-            call = sorted({(k + s) % len(opairs) for s in QUICK_LATIN_SHIFTS})
+            call = {(k + s) % len(opairs) for s in QUICK_LATIN_SHIFTS}
           else:
-            call = list(range(len(opairs)))
-          us.append(dict(kind='h', a=list(a), b=list(b), sa=sa, sb=sb, offsets=offs, call=call, amps=amps))
+            call = set(range(len(opairs)))
+          pairs = [[ia, ib, int(n in call)] for n, (ia, ib) in enumerate(opairs)]
+          for c in range(0, len(pairs), PAIRS_PER_UNIT):
+            us.append(dict(kind='h', a=list(a), b=list(b), sa=sa, sb=sb, offsets=offs, pairs=pairs[c:c + PAIRS_PER_UNIT],
+                           amps=amps_h))
   sets = rr.tenths_level_sets(4 if tier == 'quick' else None)
   sets = sets + [list(s) for s in rr.IRREGULAR if list(s) not in sets]
   for h in HYBRIDS:
     for c in range(0, len(sets), SETS_PER_UNIT):
-      us.append(dict(kind='v', hybrid=h, sets=sets[c:c + SETS_PER_UNIT], amps=amps))
+      us.append(dict(kind='v', hybrid=h, sets=sets[c:c + SETS_PER_UNIT], amps=amps_all))
   return us
 
 
@@ -130,7 +137,12 @@ def _nan_patterns(nlon, nlat):
   pats += [('lon_row', tuple(i * nlat + d for d in range(nlat))) for i in range(nlon)]
   pats += [('lat_circle', tuple(b * nlat + d for b in range(nlon))) for d in range(nlat)]
   pats += [('all', tuple(range(ns)))]
-  return pats
+  seen, out = set(), []
+  for fam, cells in pats:           # on the smallest grids a full row is also a pair of cells: one case, not two
+    if cells not in seen:
+      seen.add(cells)
+      out.append((fam, cells))
+  return out
 
 
 def work(unit, rec):
@@ -152,14 +164,13 @@ def _work_horizontal(unit, rec):
 
   a, b, sa, sb = tuple(unit['a']), tuple(unit['b']), unit['sa'], unit['sb']
   offs = unit['offsets']
-  opairs = list(itertools.product(range(len(offs)), repeat=2))
   ns, nt = a[0] * a[1], b[0] * b[1]
   pats = _nan_patterns(*a)
   mask = np.zeros((len(pats), ns), dtype=bool)
   for p, (_, cells) in enumerate(pats):
     mask[p, list(cells)] = True
 
-  for pi, (ia, ib) in enumerate(opairs):
+  for ia, ib, through_call in unit['pairs']:
     oa, ob = offs[ia], offs[ib]
     ts, tt = _tag(a, sa, oa), _tag(b, sb, ob)
     if not _relevant(rec, ts, tt):
@@ -189,15 +200,16 @@ def _work_horizontal(unit, rec):
       rec.close(wlon, R.wlon, scale=1.0, site='lon_weights_vs_ref', key=key)
       rec.close(wlat, R.wlat, scale=1.0, site='lat_weights_vs_ref', key=key)
 
-    if pi not in unit['call']:
+    if not through_call:
       continue
 
     # ---- everything through the real __call__ ------------------------------------------------------------------
-    for amp in unit['amps']:
+    for n_amp, amp in enumerate(unit['amps']):
       F = _distinct_field(ns, amp)
       fmax = float(np.abs(F).max())
       basis = amp * np.eye(ns)
       const = np.full((1, ns), 3.0 * amp)
+      # the NaN patterns ride in the same batch (one compilation per regridder); they are judged with the first amplitude
       nanf = np.where(mask, np.nan, F[None, :])
       batch = np.concatenate([basis, F[None, :], const, nanf], axis=0).reshape(-1, a[0], a[1])
       outs = {}
@@ -229,7 +241,7 @@ def _work_horizontal(unit, rec):
         rec.close(got_F, R.W @ F, scale=fmax, site='field_vs_ref', key=key)
         rec.close(got_F, np.clip(got_F, F.min(), F.max()), scale=fmax, site='output_within_input_range', key=key)
         rec.close(R.area_t @ got_F, R.area_s @ F, scale=fmax * 4 * np.pi, site='field_integral_conserved', key=key)
-      if len(outs) != 2:
+      if len(outs) != 2 or n_amp > 0:
         continue
 
       # ---- NaN patterns, both modes --------------------------------------------------------------------------
@@ -253,33 +265,34 @@ def _work_horizontal(unit, rec):
       rec.note('skipna_true_only_touching_valid_cells', int((~must_nan_t & ~must_fin_t).sum()))
       for p, (fam, cells) in enumerate(pats):
         key = ('nan', ts, tt, amp, fam, list(cells))
-        rec.case(key, transitions=2, outcome=o_f[p].tobytes() + o_t[p].tobytes(),
-                 nontrivial=bool(fin_t[p].any()),
-                 sample={'source': ts, 'target': tt, 'nan_cells': list(cells), 'family': fam,
-                         'nan_targets_skipna_false': int(nan_f[p].sum()), 'nan_targets_skipna_true': int(nan_t[p].sum())})
+        sample = None
+        if len(rec.samples) < 2:
+          sample = {'source': ts, 'target': tt, 'nan_cells': list(cells), 'family': fam,
+                    'nan_targets_skipna_false': int(nan_f[p].sum()), 'nan_targets_skipna_true': int(nan_t[p].sum())}
+        rec.case(key, transitions=2, outcome=o_f[p].tobytes() + o_t[p].tobytes(), nontrivial=bool(fin_t[p].any()),
+                 sample=sample)
         sig = {'family': fam}
+
+        def flag(bad, site, **arrays):
+          if bad.any():
+            det = {'targets': np.flatnonzero(bad)[:5]}
+            det.update({k: v[p][bad][:5] for k, v in arrays.items()})
+            rec.fail(site, key, det, sig)
+
         # skipna=False: propagated to every overlapping target cell, and only to those
-        bad = must_nan_f[p] & ~nan_f[p]
-        rec.check(not bad.any(), 'nan_propagates_to_overlapping_cells', key,
-                  {'targets': np.flatnonzero(bad)[:5], 'nan_weight': nan_w[p][bad][:5], 'got': o_f[p][bad][:5]}, sig)
-        bad = must_fin_f[p] & ~fin_f[p]
-        rec.check(not bad.any(), 'nan_does_not_spread_to_disjoint_cells', key,
-                  {'targets': np.flatnonzero(bad)[:5], 'nan_weight': nan_w[p][bad][:5]}, sig)
+        flag(must_nan_f[p] & ~nan_f[p], 'nan_propagates_to_overlapping_cells', nan_weight=nan_w, got=o_f)
+        flag(must_fin_f[p] & ~fin_f[p], 'nan_does_not_spread_to_disjoint_cells', nan_weight=nan_w)
         sel = must_fin_f[p] & fin_f[p]
         if sel.any():
           rec.close(o_f[p][sel], valid_mean[p][sel], scale=fmax, site='skipna_false_value', key=key, sig=sig)
         # skipna=True: NaN iff every overlapping cell is NaN, else the weighted mean of the valid ones
-        bad = must_fin_t[p] & ~fin_t[p]
-        rec.check(not bad.any(), 'skipna_ignores_nan', key,
-                  {'targets': np.flatnonzero(bad)[:5], 'valid_weight': valid_w[p][bad][:5]}, sig)
-        bad = must_nan_t[p] & ~nan_t[p]
-        rec.check(not bad.any(), 'skipna_nan_where_all_overlapping_are_nan', key,
-                  {'targets': np.flatnonzero(bad)[:5], 'got': o_t[p][bad][:5]}, sig)
+        flag(must_fin_t[p] & ~fin_t[p], 'skipna_ignores_nan', valid_weight=valid_w)
+        flag(must_nan_t[p] & ~nan_t[p], 'skipna_nan_where_all_overlapping_are_nan', got=o_t)
         sel = must_fin_t[p] & fin_t[p]
         if sel.any():
           resid = (o_t[p][sel] - valid_mean[p][sel]) * valid_w[p][sel]
           rec.close(resid, np.zeros_like(resid), scale=fmax, site='skipna_true_value', key=key, sig=sig)
-  jax.clear_caches()
+  _clear(jax)
 
 
 # -- vertical -------------------------------------------------------------------------------------------------------
@@ -348,4 +361,19 @@ def _work_vertical(unit, rec):
         rec.close(got_F, np.clip(got_F, F.min(), F.max()), scale=fmax, site='v_output_within_input_range', key=key)
         rec.close((R.covered[rows] * got_F).sum(), (R.overlap[rows] @ F).sum(), scale=fmax * ps,
                   site='v_field_integral_conserved', key=key)
-  jax.clear_caches()
+  _clear(jax)
+
+
+_UNITS_DONE = [0]
+
+
+def _clear(jax):
+  """bounds the memory of a worker: every regridder instance is a static jit argument and would be kept alive."""
+  from dinosaur import horizontal_interpolation as hi
+  from dinosaur import vertical_interpolation as vi
+  for f in (hi.ConservativeRegridder._mean, vi.regrid_hybrid_to_sigma):
+    if hasattr(f, 'clear_cache'):
+      f.clear_cache()
+  _UNITS_DONE[0] += 1
+  if _UNITS_DONE[0] % 40 == 0:
+    jax.clear_caches()
